@@ -136,7 +136,7 @@ class QGen:
             a = opt([self.float_arg(D, P)])
             self._numeric_prefix = True
         elif c == "mk":
-            a = opt([r.choice(["list", "dict", "udict", "nested", "df", "bytes", "text", "none", "float", "tuple", "tlist", "pairs", "set", "matrix", "lod"]), str(r.choice([0, 1, 2, 3]))])
+            a = opt([r.choice(["list", "dict", "udict", "nested", "df", "bytes", "text", "none", "float", "inf", "nan", "tuple", "tlist", "pairs", "set", "matrix", "lod"]), str(r.choice([0, 1, 2, 3]))])
             self._numeric_prefix = False
         elif c == "firstcat":
             a = [self.str_arg(D, P) for _ in range(r.randint(0, 3))]
